@@ -126,7 +126,8 @@ func c02ModelMany(or *Oracle, p *c02Prog, masks []uint) []c02ModelRes {
 			if dead[k] {
 				continue
 			}
-			tab := c02Table(tabs[k])
+			xs := f.extraSigs()
+			tab := c02Table(append(append([]string{}, xs...), tabs[k]...))
 			reqs = append(reqs, "(infer "+p.fnSexp(fi, mask, false)+" "+tab+")")
 			reqs = append(reqs, "(infertype "+p.fnSexp(fi, mask, false)+" "+tab+")")
 			// the same constraints solved by the transcription of fc's own resolver (Core/Resolver.v),
@@ -143,7 +144,7 @@ func c02ModelMany(or *Oracle, p *c02Prog, masks []uint) []c02ModelRes {
 				for _, n := range SortedKeys(bs) {
 					extra = append(extra, bs[n])
 				}
-				reqs = append(reqs, "(infer "+p.fnSexp(fi, mask, true)+" "+c02Table(append(extra, tabs[k]...))+")")
+				reqs = append(reqs, "(infer "+p.fnSexp(fi, mask, true)+" "+c02Table(append(append(extra, xs...), tabs[k]...))+")")
 			}
 			owner = append(owner, k)
 		}
@@ -178,7 +179,7 @@ func c02ModelMany(or *Oracle, p *c02Prog, masks []uint) []c02ModelRes {
 			}
 			sg := c02SigOfAnswer(f.Name, ans[n*per+1])
 			res[k].user = append(res[k].user, sg)
-			tabs[k] = append(tabs[k], sg.sexp())
+			tabs[k] = append(tabs[k], sg.forCallers().sexp())
 		}
 	}
 	return res
@@ -821,7 +822,7 @@ func runC02(c *Ctx) {
 	c02CheckFoi(c)
 	nRand := c.Pick(110, 6000)
 	nShape := c.Pick(45, 2800)
-	nFam := c.Pick(15, 800) // per family (twobox, clamp, shadow)
+	nFam := c.Pick(10, 500) // per family (twobox, clamp, shadow, anyarg, retann, pipe)
 	nHazard := c.Pick(4, 40)
 	c02MaxSites = c.Pick(4, 6) // quick: <= 2^4 variants per program, thorough: <= 2^6
 	var progs []*c02Prog
@@ -851,8 +852,8 @@ func runC02(c *Ctx) {
 	for i := 0; i < nHazard; i++ {
 		jobs = append(jobs, job{"hazard", rng.Fork(), len(jobs)})
 	}
-	for i := 0; i < 3*nFam; i++ {
-		jobs = append(jobs, job{[]string{"twobox", "clamp", "shadow"}[i%3], rng.Fork(), len(jobs)})
+	for i := 0; i < 6*nFam; i++ {
+		jobs = append(jobs, job{[]string{"twobox", "clamp", "shadow", "anyarg", "retann", "pipe"}[i%6], rng.Fork(), len(jobs)})
 	}
 	if c.Replay == "" {
 		progs = make([]*c02Prog, len(jobs))
@@ -889,6 +890,15 @@ func runC02(c *Ctx) {
 					p.initSites(j.rng)
 				case "shadow":
 					p = c02FamShadow(j.rng, j.id)
+					p.initSites(j.rng)
+				case "anyarg":
+					p = c02FamAnyArg(j.rng, j.id)
+					p.initSites(j.rng)
+				case "retann":
+					p = c02FamRetAnn(j.rng, j.id)
+					p.initSites(j.rng)
+				case "pipe":
+					p = c02FamPipe(j.rng, j.id)
 					p.initSites(j.rng)
 				default:
 					p = c02GenShapeProg(j.rng, j.id, c.Thorough())
